@@ -13,6 +13,8 @@
      fx = false : the pinned code (shortcut on equal signature bytes only; SHA-1 rule with the
                   inverted length test)
      fx = true  : the repaired code (pending-fixes/C03-*.patch).
+   The CRL part is the code with pending-fixes/C03-crl-without-nextupdate.patch (a cached CRL without nextUpdate is
+   never stale; the unrepaired code dereferences NULL there, which no model value stands for).
    Signature verification (psVerifySig) is the Section variable [sig_ok]. *)
 From Coq Require Import List ZArith NArith Bool.
 From MV Require Import Gen.Consts Gen.ConstsChain.
